@@ -515,7 +515,9 @@ func c11FieldOps(kind string) []string {
 	case "int":
 		return []string{"=1", "=-1", "=2", "=256"}
 	case "raw":
-		return []string{"empty", "first-byte-only", "drop-last", "extra-zero", "all-zero", "len0-bytes-kept", "len-1-bytes-kept"}
+		// the last four change several bytes so that the byte-wise differences cancel under
+		// addition (2 x 0x80, 4 x 0x40, 16 x 0x10, every byte ^0x80) or under xor (two equal deltas)
+		return []string{"empty", "first-byte-only", "drop-last", "extra-zero", "all-zero", "len0-bytes-kept", "len-1-bytes-kept", "top-bit-x2", "0x40-x4", "0x10-x16", "top-bit-all", "same-delta-x2"}
 	case "idstr":
 		return []string{"empty", "other", "plus-char"}
 	}
@@ -546,6 +548,13 @@ func c11ApplyField(p []byte, f c11Field, op string) []byte {
 			nf = append(c11Int(0), body...)
 		case "len-1-bytes-kept":
 			nf = append(c11Int(int64(len(body)-1)), body...)
+		case "top-bit-x2", "0x40-x4", "0x10-x16", "top-bit-all", "same-delta-x2":
+			n, d := map[string]int{"top-bit-x2": 2, "0x40-x4": 4, "0x10-x16": 16, "top-bit-all": len(body), "same-delta-x2": 2}[op], map[string]byte{"top-bit-x2": 0x80, "0x40-x4": 0x40, "0x10-x16": 0x10, "top-bit-all": 0x80, "same-delta-x2": 0x55}[op]
+			nb := append([]byte(nil), body...)
+			for i := 0; i < n && i < len(nb); i++ {
+				nb[i] ^= d
+			}
+			nf = append(c11Int(int64(len(nb))), nb...)
 		}
 	case "idstr":
 		id := string(old[8 : len(old)-1])
@@ -727,7 +736,7 @@ func c11Verify(res *vlib.Result, label, class, tok string) {
 func C11Plan() *vlib.Plan {
 	p := &vlib.Plan{
 		Property: "C11", Level: "fault_enumeration",
-		Rule:   "E-FAULT: (1) 20 token variants and every single-bit flip of a valid token string, each through a real client/server TOKEN handshake (no cipher, so the AKEP2 result is the result); (2) for each of the three AKEP2 messages: every byte offset (header and payload) x {^01,^80}, truncation at every 8th byte, 1/8 trailing bytes appended, for step 1 a field-aware substitution of the claimed client identity by {bob, empty, +1 char}, and field-aware alterations of every field of every message (status := 1/-1/2/256; each proof, nonce and nonce echo := empty / first byte only / last byte dropped / one zero byte added / all zero / length 0 or length-1 with the bytes kept; each identity echo := empty / bob / +1 char); (3) VerifyIDToken on the same variants and bit flips; (4) an independent scripted AKEP2 client (own HKDF/HMAC arithmetic) against the real server: 20 token variants (incl. those cedar's client refuses to send) x claimed identity {the subject, bob, root} x proof {honest, empty, wrong, computed over the identity the server echoed} x RB echo {honest, empty, wrong} x {no, one} trailing byte; (5) time claims AT their limits (exp = now-1 / now / now+1, iat = now / now-max / now-max-1) through VerifyIDToken and through the scripted client, each call aligned on a wall-clock second and kept only if the clock still shows that second afterwards; (6) every token variant with TOKEN and SSL listed on both sides: when the token exchange fails and SSL completes the handshake, the failed token's subject must not become the session's identity; (7) all pairs of successive VerifyIDToken calls over 3 tokens x 3 verifier configurations (usual; another key under the same key id; shorter maximum age): each verdict is that of the reference for its own configuration, whatever was verified before. Oracle: independent HKDF+HMAC verifier with the same time rules (variants sit 120 s away from the limits); server success => token valid and no client message altered outside the claimed-identity field; client success => server message unaltered; recorded user = token subject. Non-trivial = the mutated element reached the receiving side.",
+		Rule:   "E-FAULT: (1) 20 token variants and every single-bit flip of a valid token string, each through a real client/server TOKEN handshake (no cipher, so the AKEP2 result is the result); (2) for each of the three AKEP2 messages: every byte offset (header and payload) x {^01,^80}, truncation at every 8th byte, 1/8 trailing bytes appended, for step 1 a field-aware substitution of the claimed client identity by {bob, empty, +1 char}, and field-aware alterations of every field of every message (status := 1/-1/2/256; each proof, nonce and nonce echo := empty / first byte only / last byte dropped / one zero byte added / all zero / length 0 or length-1 with the bytes kept / several bytes changed so that the differences cancel (2 x ^80, 4 x ^40, 16 x ^10, every byte ^80, 2 x ^55); each identity echo := empty / bob / +1 char); (3) VerifyIDToken on the same variants and bit flips; (4) an independent scripted AKEP2 client (own HKDF/HMAC arithmetic) against the real server: 20 token variants (incl. those cedar's client refuses to send) x claimed identity {the subject, bob, root} x proof {honest, empty, wrong, computed over the identity the server echoed} x RB echo {honest, empty, wrong} x {no, one} trailing byte; (5) time claims AT their limits (exp = now-1 / now / now+1, iat = now / now-max / now-max-1) through VerifyIDToken and through the scripted client, each call aligned on a wall-clock second and kept only if the clock still shows that second afterwards; (6) every token variant with TOKEN and SSL listed on both sides: when the token exchange fails and SSL completes the handshake, the failed token's subject must not become the session's identity; (7) all pairs of successive VerifyIDToken calls over 3 tokens x 3 verifier configurations (usual; another key under the same key id; shorter maximum age): each verdict is that of the reference for its own configuration, whatever was verified before. Oracle: independent HKDF+HMAC verifier with the same time rules (variants sit 120 s away from the limits); server success => token valid and no client message altered outside the claimed-identity field; client success => server message unaltered; recorded user = token subject. Non-trivial = the mutated element reached the receiving side.",
 		Assume: []string{"base64 decoding is shared with the code (non-canonical trailing bits that decode identically are the same token)", "time-dependent variants are 120 s away from the boundary"},
 	}
 	p.Gen = func(tier string, yield func(vlib.Case)) {
